@@ -12,9 +12,11 @@ uint8_t *_Znwm(uint64_t n) { uint8_t *p = malloc(n); VERIF_ASSUME(p != 0); retur
 uint8_t *_Znam(uint64_t n) { uint8_t *p = malloc(n); VERIF_ASSUME(p != 0); return p; }
 uint8_t *_ZnwmRKSt9nothrow_t(uint64_t n, void *nt) { uint8_t *p = malloc(n); VERIF_ASSUME(p != 0); return p; }
 uint8_t *_ZnamRKSt9nothrow_t(uint64_t n, void *nt) { uint8_t *p = malloc(n); VERIF_ASSUME(p != 0); return p; }
+#ifndef VERIF_CUSTOM_DELETE
 void _ZdlPv(uint8_t *p) { free(p); }
-void _ZdaPv(uint8_t *p) { free(p); }
 void _ZdlPvm(uint8_t *p, uint64_t n) { free(p); }
+#endif
+void _ZdaPv(uint8_t *p) { free(p); }
 void _ZdaPvm(uint8_t *p, uint64_t n) { free(p); }
 uint32_t __cxa_guard_acquire(uint64_t *g) { return *(uint8_t *)g == 0; }
 void __cxa_guard_release(uint64_t *g) { *(uint8_t *)g = 1; }
